@@ -1,19 +1,59 @@
 import YowsupVerif.Model.Trust
 namespace Yow.Trust
 
-/-- a stored session was built for the pinned identity -/
-def Inv (s : St) : Prop := ∀ c k, s.session c = some k → s.pinned c = some k
+/-- a stored session was built for the pinned identity; and a contact whose record holds earlier session states has a pinned identity
+    (an earlier state only ever appears when a session is replaced, and building a session pins its identity) -/
+def Inv (s : St) : Prop :=
+  (∀ c k, s.session c = some k → s.pinned c = some k) ∧ (∀ c, s.pinned c = none → s.archived c = [])
 
-theorem inv_init : Inv init := by intro c k h; simp [init] at h
+theorem Inv.session_pin {s : St} (h : Inv s) : ∀ c k, s.session c = some k → s.pinned c = some k := h.1
+
+theorem inv_init : Inv init := ⟨by intro c k h; simp [init] at h, by intro c _; rfl⟩
 
 @[simp] theorem good_trustUnknown : Cfg.good.trustUnknown = true := rfl
 @[simp] theorem good_trustSame : Cfg.good.trustSame = true := rfl
 @[simp] theorem good_trustOther : Cfg.good.trustOther = false := rfl
 @[simp] theorem good_saveReplaces : Cfg.good.saveReplaces = true := rfl
 @[simp] theorem good_rebuild : Cfg.good.rebuildAfterTrust = true := rfl
+@[simp] theorem good_checksOld : Cfg.good.checksOldSessions = true := rfl
 
 @[simp] theorem upd_same (f : Nat → Option Nat) (c : Nat) (v : Option Nat) : upd f c v c = v := by simp [upd]
 theorem upd_other (f : Nat → Option Nat) (c c' : Nat) (v : Option Nat) (h : c' ≠ c) : upd f c v c' = f c' := by simp [upd, h]
+theorem updL_other (f : Nat → List Nat) (c c' : Nat) (v : List Nat) (h : c' ≠ c) : updL f c v c' = f c' := by simp [updL, h]
+
+theorem setSession_pinned (s : St) (c k : Nat) : (setSession s c k).pinned = s.pinned := by
+  unfold setSession
+  split
+  · split <;> rfl
+  · rfl
+
+theorem setSession_auto (s : St) (c k : Nat) : (setSession s c k).autotrust = s.autotrust := by
+  unfold setSession
+  split
+  · split <;> rfl
+  · rfl
+
+theorem setSession_session (s : St) (c k : Nat) : (setSession s c k).session = upd s.session c (some k) := by
+  unfold setSession
+  split
+  · rename_i j hj
+    split
+    · rename_i hjk
+      subst hjk
+      funext x
+      by_cases hx : x = c
+      · subst hx; simp [hj]
+      · simp [upd, hx]
+    · rfl
+  · rfl
+
+theorem setSession_archived_other (s : St) (c k c' : Nat) (h : c' ≠ c) : (setSession s c k).archived c' = s.archived c' := by
+  unfold setSession
+  split
+  · split
+    · rfl
+    · exact updL_other _ _ _ _ h
+  · exact updL_other _ _ _ _ h
 
 theorem save_good_pinned (s : St) (c k : Nat) : (save Cfg.good s c k).pinned = upd s.pinned c (some k) := by
   unfold save; cases s.pinned c <;> simp
@@ -21,27 +61,59 @@ theorem save_good_pinned (s : St) (c k : Nat) : (save Cfg.good s c k).pinned = u
 theorem save_good_session (s : St) (c k : Nat) : (save Cfg.good s c k).session = s.session := by
   unfold save; cases s.pinned c <;> simp
 
+theorem save_good_archived (s : St) (c k : Nat) : (save Cfg.good s c k).archived = s.archived := by
+  unfold save; cases s.pinned c <;> simp
+
 theorem save_good_auto (s : St) (c k : Nat) : (save Cfg.good s c k).autotrust = s.autotrust := by
   unfold save; cases s.pinned c <;> simp
 
 theorem build_good_pinned (s : St) (c k : Nat) : (build Cfg.good s c k).pinned = upd s.pinned c (some k) := by
-  simp [build, save_good_pinned]
+  simp [build, save_good_pinned, setSession_pinned]
 
 theorem build_good_session (s : St) (c k : Nat) : (build Cfg.good s c k).session = upd s.session c (some k) := by
-  simp [build, save_good_session]
+  simp [build, save_good_session, setSession_session]
+
+theorem build_good_archived_other (s : St) (c k c' : Nat) (h : c' ≠ c) : (build Cfg.good s c k).archived c' = s.archived c' := by
+  simp [build, save_good_archived, setSession_archived_other _ _ _ _ h]
 
 theorem build_good_auto (s : St) (c k : Nat) : (build Cfg.good s c k).autotrust = s.autotrust := by
-  simp [build, save_good_auto]
+  simp [build, save_good_auto, setSession_auto]
 
 theorem isTrusted_after_save (s : St) (c k : Nat) : isTrusted Cfg.good (save Cfg.good s c k) c k = true := by
   simp [isTrusted, save_good_pinned]
 
+/-- a state that agrees with `s` on every other contact and has pin = session identity for contact `c` keeps the invariant -/
+theorem inv_of_frame (s t : St) (c k : Nat) (h : Inv s) (hp : t.pinned c = some k) (hs : t.session c = some k)
+    (hf : ∀ c', c' ≠ c → t.pinned c' = s.pinned c' ∧ t.session c' = s.session c' ∧ t.archived c' = s.archived c') : Inv t := by
+  constructor
+  · intro c' k' hs'
+    by_cases hc : c' = c
+    · subst hc; rw [hs] at hs'; rw [hp]; exact hs'
+    · obtain ⟨f1, f2, _⟩ := hf c' hc
+      rw [f2] at hs'; rw [f1]; exact h.1 c' k' hs'
+  · intro c' hn
+    by_cases hc : c' = c
+    · subst hc; rw [hp] at hn; cases hn
+    · obtain ⟨f1, _, f3⟩ := hf c' hc
+      rw [f1] at hn; rw [f3]; exact h.2 c' hn
+
 theorem inv_build (s : St) (c k : Nat) (h : Inv s) : Inv (build Cfg.good s c k) := by
-  intro c' k' hs
-  rw [build_good_session] at hs; rw [build_good_pinned]
-  by_cases hc : c' = c
-  · subst hc; simp at hs ⊢; exact hs
-  · rw [upd_other _ _ _ _ hc] at hs ⊢; exact h c' k' hs
+  refine inv_of_frame s _ c k h (by simp [build_good_pinned]) (by simp [build_good_session]) ?_
+  intro c' hc
+  simp [build_good_pinned, build_good_session, build_good_archived_other _ _ _ _ hc, upd_other _ _ _ _ hc]
+
+/-- the intermediate state (pin replaced, old session still stored) need not satisfy Inv: go directly -/
+theorem inv_build_save (s : St) (c k : Nat) (h : Inv s) : Inv (build Cfg.good (save Cfg.good s c k) c k) := by
+  refine inv_of_frame s _ c k h (by simp [build_good_pinned]) (by simp [build_good_session]) ?_
+  intro c' hc
+  simp [build_good_pinned, build_good_session, build_good_archived_other _ _ _ _ hc, save_good_pinned, save_good_session,
+    save_good_archived, upd_other _ _ _ _ hc]
+
+theorem inv_setSession_save (s : St) (c k : Nat) (h : Inv s) : Inv (setSession (save Cfg.good s c k) c k) := by
+  refine inv_of_frame s _ c k h (by simp [setSession_pinned, save_good_pinned]) (by simp [setSession_session]) ?_
+  intro c' hc
+  simp [setSession_pinned, setSession_session, setSession_archived_other _ _ _ _ hc, save_good_pinned, save_good_session,
+    save_good_archived, upd_other _ _ _ _ hc]
 
 /-- with automatic trust off, a trusted identity is the pinned one or the first one -/
 theorem isTrusted_good (s : St) (c k : Nat) :
@@ -51,6 +123,18 @@ theorem isTrusted_good (s : St) (c k : Nat) :
   | none => simp
   | some p => by_cases h : p = k <;> simp [h]
 
+/-- in a state with the invariant, a trusted identity that an earlier session state of the record belongs to is the pinned one -/
+theorem pinned_of_trusted_archived (s : St) (c k : Nat) (h : Inv s) (hk : k ∈ s.archived c)
+    (ht : isTrusted Cfg.good s c k = true) : s.pinned c = some k := by
+  rcases (isTrusted_good s c k).1 ht with h0 | h1
+  · have := h.2 c h0; rw [this] at hk; cases hk
+  · exact h1
+
+theorem inv_setSession (s : St) (c k : Nat) (h : Inv s) (hp : s.pinned c = some k) : Inv (setSession s c k) := by
+  refine inv_of_frame s _ c k h (by simp [setSession_pinned, hp]) (by simp [setSession_session]) ?_
+  intro c' hc
+  simp [setSession_pinned, setSession_session, setSession_archived_other _ _ _ _ hc, upd_other _ _ _ _ hc]
+
 theorem inv_step (s : St) (e : Ev) (h : Inv s) : Inv (step Cfg.good s e).1 := by
   cases e with
   | bundle c k =>
@@ -59,13 +143,7 @@ theorem inv_step (s : St) (e : Ev) (h : Inv s) : Inv (step Cfg.good s e).1 := by
     · exact inv_build s c k h
     · split
       · simp only [isTrusted_after_save, good_rebuild, if_true]
-        -- the intermediate state (pin replaced, old session still stored) need not satisfy Inv: go directly
-        intro c' k' hs
-        rw [build_good_session, save_good_session] at hs
-        rw [build_good_pinned, save_good_pinned]
-        by_cases hc : c' = c
-        · subst hc; simp at hs ⊢; exact hs
-        · rw [upd_other _ _ _ _ hc] at hs; rw [upd_other _ _ _ _ hc, upd_other _ _ _ _ hc]; exact h c' k' hs
+        exact inv_build_save s c k h
       · exact h
   | firstMsg c k =>
     simp only [step]
@@ -73,14 +151,23 @@ theorem inv_step (s : St) (e : Ev) (h : Inv s) : Inv (step Cfg.good s e).1 := by
     · exact inv_build s c k h
     · split
       · simp only [isTrusted_after_save, if_true]
-        intro c' k' hs
-        rw [build_good_session, save_good_session] at hs
-        rw [build_good_pinned, save_good_pinned]
-        by_cases hc : c' = c
-        · subst hc; simp at hs ⊢; exact hs
-        · rw [upd_other _ _ _ _ hc] at hs; rw [upd_other _ _ _ _ hc, upd_other _ _ _ _ hc]; exact h c' k' hs
+        exact inv_build_save s c k h
       · exact h
-  | msgIn c k => simp only [step]; split <;> exact h
+  | msgIn c k =>
+    simp only [step]
+    split
+    · exact h
+    · split
+      · rename_i hk
+        simp only [good_checksOld, Bool.not_true, Bool.false_or]
+        split
+        · rename_i ht
+          exact inv_setSession s c k h (pinned_of_trusted_archived s c k h hk ht)
+        · split
+          · simp only [isTrusted_after_save, if_true]
+            exact inv_setSession_save s c k h
+          · exact h
+      · exact h
   | encrypt c => simp only [step]; split <;> exact h
   | restart => exact h
   | setAuto b => exact h
@@ -134,8 +221,19 @@ theorem step_noauto (s : St) (e : Ev) (c p : Nat) (hi : Inv s) (ha : s.autotrust
       refine ⟨hp, ha, by simp, ?_, by simp⟩
       intro k' hk'; simp at hk'
       obtain ⟨h1, h2⟩ := hk'; subst h1; subst h2
-      have := hi c k' hs; rw [hp] at this; exact (Option.some.inj this).symm
-    · exact ⟨hp, ha, by simp, by simp, by simp⟩
+      have := hi.1 c k' hs; rw [hp] at this; exact (Option.some.inj this).symm
+    · split
+      · simp only [good_checksOld, Bool.not_true, Bool.false_or, ha]
+        by_cases ht : isTrusted Cfg.good s c' k = true
+        · simp only [ht, if_true, setSession_pinned, setSession_auto]
+          refine ⟨hp, ha, by simp, ?_, by simp⟩
+          intro k' hk'; simp at hk'
+          obtain ⟨h1, h2⟩ := hk'; subst h1; subst h2
+          rcases (isTrusted_good s c k').1 ht with h0 | h1
+          · rw [hp] at h0; cases h0
+          · rw [hp] at h1; exact (Option.some.inj h1).symm
+        · simp [ht, hp, ha]
+      · exact ⟨hp, ha, by simp, by simp, by simp⟩
   | encrypt c' =>
     simp only [step]
     cases hs : s.session c' with
@@ -144,7 +242,7 @@ theorem step_noauto (s : St) (e : Ev) (c p : Nat) (hi : Inv s) (ha : s.autotrust
       refine ⟨hp, ha, ?_, by simp, by simp⟩
       intro k' hk'; simp at hk'
       obtain ⟨h1, h2⟩ := hk'; subst h1; subst h2
-      have := hi c k' hs; rw [hp] at this; exact (Option.some.inj this).symm
+      have := hi.1 c k' hs; rw [hp] at this; exact (Option.some.inj this).symm
   | restart => exact ⟨hp, ha, by simp [step], by simp [step], by simp [step]⟩
   | setAuto b =>
     cases b with
@@ -179,31 +277,48 @@ theorem run_noauto (s : St) (es : List Ev) (c p : Nat) (hi : Inv s) (ha : s.auto
       · exact h5 k hk
       · exact i4 k hk
 
-/-- events about other contacts (and restarts, option changes) leave a contact's pin and session alone -/
+/-- events about other contacts (and restarts, option changes) leave a contact's pin, session and earlier session states alone -/
 theorem step_frame (s : St) (e : Ev) (c : Nat) (h : e.about c = false) :
-    (step Cfg.good s e).1.pinned c = s.pinned c ∧ (step Cfg.good s e).1.session c = s.session c := by
+    (step Cfg.good s e).1.pinned c = s.pinned c ∧ (step Cfg.good s e).1.session c = s.session c ∧
+    (step Cfg.good s e).1.archived c = s.archived c := by
   cases e with
   | bundle c' k =>
     have hc : c ≠ c' := by intro hh; subst hh; simp [Ev.about] at h
     simp only [step]
     split
-    · simp [build_good_pinned, build_good_session, upd_other _ _ _ _ hc]
+    · simp [build_good_pinned, build_good_session, build_good_archived_other _ _ _ _ hc, upd_other _ _ _ _ hc]
     · split
       · simp only [isTrusted_after_save, good_rebuild, if_true]
-        rw [build_good_pinned, build_good_session, save_good_pinned, save_good_session]
+        rw [build_good_pinned, build_good_session, build_good_archived_other _ _ _ _ hc, save_good_pinned, save_good_session,
+          save_good_archived]
         simp [upd_other _ _ _ _ hc]
       · simp
   | firstMsg c' k =>
     have hc : c ≠ c' := by intro hh; subst hh; simp [Ev.about] at h
     simp only [step]
     split
-    · simp [build_good_pinned, build_good_session, upd_other _ _ _ _ hc]
+    · simp [build_good_pinned, build_good_session, build_good_archived_other _ _ _ _ hc, upd_other _ _ _ _ hc]
     · split
       · simp only [isTrusted_after_save, if_true]
-        rw [build_good_pinned, build_good_session, save_good_pinned, save_good_session]
+        rw [build_good_pinned, build_good_session, build_good_archived_other _ _ _ _ hc, save_good_pinned, save_good_session,
+          save_good_archived]
         simp [upd_other _ _ _ _ hc]
       · simp
-  | msgIn c' k => simp only [step]; split <;> simp
+  | msgIn c' k =>
+    have hc : c ≠ c' := by intro hh; subst hh; simp [Ev.about] at h
+    simp only [step]
+    split
+    · simp
+    · split
+      · simp only [good_checksOld, Bool.not_true, Bool.false_or]
+        split
+        · simp [setSession_pinned, setSession_session, setSession_archived_other _ _ _ _ hc, upd_other _ _ _ _ hc]
+        · split
+          · simp only [isTrusted_after_save, if_true]
+            simp [setSession_pinned, setSession_session, setSession_archived_other _ _ _ _ hc, save_good_pinned, save_good_session,
+              save_good_archived, upd_other _ _ _ _ hc]
+          · simp
+      · simp
   | encrypt c' => simp only [step]; split <;> simp
   | restart => simp [step]
   | setAuto b => simp [step]
